@@ -575,3 +575,98 @@ Section ResponseClauses.
     destruct (Z.ltb 0 c); vm_compute; reflexivity.
   Qed.
 End ResponseClauses.
+
+(* ---------- one level into a request body: a property the new schema adds as required ---------- *)
+Lemma properties_for_plain d f x sta : is_ref x = false -> sc_allof x = [] -> properties_for (S f) d x sta = Ok (own_props x, sta).
+Proof. intros R A. rewrite properties_for_unfold, R, A. reflexivity. Qed.
+
+Lemma own_props_assoc x name sc : NoDup (keys (sc_props x)) -> In (name, sc) (sc_props x) ->
+  assoc name (own_props x) = Some (sc, mem name (sc_required x)).
+Proof.
+  intros ND Hin. apply In_assoc_NoDup.
+  - unfold own_props, keys. rewrite map_map. cbn [fst]. exact ND.
+  - unfold own_props. apply in_map_iff. exists (name, sc). split; [reflexivity | exact Hin].
+Qed.
+
+(* two inline object schemas without allOf whose own keywords do not differ: every property that only the second one
+   has is reported, as a required addition when the second schema requires it *)
+Theorem compare_schema_added_property d1 d2 f l x1 x2 sta ds sta' :
+  is_ref x1 = false -> is_ref x2 = false -> sc_allof x1 = [] -> sc_allof x2 = [] ->
+  compare_props x1 x2 = Ok [] -> is_array_type (sc_typ x1) = false -> NoDup (keys (sc_props x2)) ->
+  compare_schema f d1 d2 l x1 x2 sta = Ok (ds, sta') ->
+  forall name sc2, In (name, sc2) (sc_props x2) -> has_key name (sc_props x1) = false ->
+  exists cl, l_response cl = l_response l /\
+             In (mk_diff cl (if mem name (sc_required x2) then AddedRequiredProperty else AddedProperty) []) ds.
+Proof.
+  intros R1 R2 A1 A2 CP NA ND H name sc2 Hin HK.
+  destruct f as [|f]; [discriminate|]. cbn [compare_schema] in H.
+  unfold check_ref_change in H. rewrite R1, R2 in H. cbn [andb Bool.eqb bind nonempty] in H.
+  rewrite CP in H. cbn [bind nonempty] in H. rewrite NA in H. cbn [bind] in H.
+  assert (nonempty (sc_props x2) = true) as NE by (destruct (sc_props x2); [contradiction | reflexivity]).
+  rewrite NE in H. rewrite Bool.andb_false_r in H.
+  destruct f as [|f]; [discriminate|].
+  rewrite (properties_for_plain d1 f x1 sta R1 A1) in H. cbn [bind fst snd] in H.
+  rewrite (properties_for_plain d2 f x2 sta R2 A2) in H. cbn [bind fst snd] in H.
+  match type of H with bind ?X _ = _ => destruct X as [[cd cs]| |] eqn:Ec end; cbn [bind] in H; try discriminate.
+  match type of H with bind (?F (sc_props x2)) _ = _ =>
+    assert (forall ps r, (forall e, In e ps -> In e (sc_props x2)) -> F ps = Ok r -> In (name, sc2) ps ->
+            exists cl, l_response cl = l_response l /\
+                       In (mk_diff cl (if mem name (sc_required x2) then AddedRequiredProperty else AddedProperty) []) r) as ADD end.
+  { induction ps as [|[n0 s0] rest IHp]; intros r Hsub Hr Hi; [contradiction|].
+    match type of Hr with bind ?X _ = _ => destruct X as [rd| |] eqn:Erest end; cbn [bind] in Hr; try discriminate.
+    destruct Hi as [Eq|Hi].
+    - inversion Eq; subst n0 s0. rewrite HK in Hr.
+      match type of Hr with bind ?X _ = _ => destruct X as [cl| |] eqn:Ecl end; cbn [bind] in Hr; try discriminate.
+      rewrite (own_props_assoc x2 name sc2 ND Hin) in Hr. inversion Hr; subst r.
+      exists cl. split; [|left; reflexivity].
+      unfold add_child_node in Ecl. destruct (type_of_props sc2); cbn [bind] in Ecl; try discriminate. inversion Ecl. reflexivity.
+    - destruct (IHp rd (fun e He => Hsub e (or_intror He)) eq_refl Hi) as [cl [Rc Hc]]. exists cl. split; [exact Rc|].
+      destruct (has_key n0 (sc_props x1)); [inversion Hr; subst; exact Hc|].
+      match type of Hr with bind ?X _ = _ => destruct X as [cl0| |] end; cbn [bind] in Hr; try discriminate.
+      inversion Hr; subst r. right. exact Hc. }
+  match type of H with bind ?X _ = _ => destruct X as [ad| |] eqn:Ea end; cbn [bind] in H; try discriminate.
+  destruct (ADD _ _ (fun e He => He) Ea Hin) as [cl [Rc Hc]]. inversion H; subst ds.
+  exists cl. split; [exact Rc|]. rewrite !in_app_iff. tauto.
+Qed.
+
+Lemma compare_params_body fuel d1 d2 k location n p1 p2 sta out sta' s1 s2 :
+  compare_params fuel d1 d2 k location n p1 p2 sta = Ok (out, sta') -> p_schema p1 = Some s1 -> p_schema p2 = Some s2 ->
+  exists cl bd sb, compare_schema fuel d1 d2 cl s1 s2 sta = Ok (bd, sb) /\ l_response cl = 0%Z /\ incl bd out.
+Proof.
+  unfold compare_params. intros H P1 P2. rewrite P1, P2 in H.
+  match type of H with bind (bind ?X _) _ = _ => destruct X as [cl| |] eqn:Ecl end; cbn [bind] in H; try discriminate.
+  match type of H with bind (bind ?X _) _ = _ => destruct X as [[bd sb]| |] eqn:Ecs end; cbn [bind fst snd] in H; try discriminate.
+  stepb H. stepb H. stepb H. inversion H; subst out sta'. clear H.
+  exists cl, bd, sb. split; [exact Ecs|]. split.
+  - destruct (is_empty n); [inversion Ecl; reflexivity|].
+    destruct (type_of_props s2); cbn [bind] in Ecl; try discriminate. inversion Ecl. reflexivity.
+  - intros x Hx. apply in_or_app. right. apply in_or_app. left. exact Hx.
+Qed.
+
+Section BodyClause.
+  Variables (fuel : nat) (a b : swagger) (ds : list sdiff).
+  Hypothesis Hrun : analyse fuel a b = Ok ds.
+  Variables (location : str) (k : str * str) (pit1 pit2 : pathitem) (op1 op2 : operation).
+  Hypothesis Hloc : In location param_locations.
+  Hypothesis Hin2 : In (k, (pit2, op2)) (url_methods b).
+  Hypothesis Hin1 : find_um k (url_methods a) = Some (pit1, op1).
+
+  (* 8. a request body (inline object schemas without allOf whose own keywords agree) gains a required property *)
+  Theorem doc_body_required_property_added n p1 p2 s1 s2 name sc2 :
+    In (n, p2) (get_params (pi_params pit2) (o_params op2) location) ->
+    assoc n (get_params (pi_params pit1) (o_params op1) location) = Some p1 ->
+    p_schema p1 = Some s1 -> p_schema p2 = Some s2 ->
+    is_ref s1 = false -> is_ref s2 = false -> sc_allof s1 = [] -> sc_allof s2 = [] ->
+    compare_props s1 s2 = Ok [] -> is_array_type (sc_typ s1) = false -> NoDup (keys (sc_props s2)) ->
+    In (name, sc2) (sc_props s2) -> has_key name (sc_props s1) = false -> mem name (sc_required s2) = true ->
+    reports_breaking ds.
+  Proof.
+    intros Hn HS P1 P2 R1 R2 A1 A2 CP NA ND Hp HK Hreq.
+    destruct (request_cover_ds fuel a b ds Hrun location k pit1 pit2 op1 op2 Hloc Hin2 Hin1) as [_ C].
+    specialize (C n p2 Hn). rewrite HS in C. destruct C as [sa [o [sb [Hc Ho]]]].
+    destruct (compare_params_body _ _ _ _ _ _ _ _ _ _ _ _ _ Hc P1 P2) as [cl [bd [sb2 [Hcs [Rcl Hi]]]]].
+    destruct (compare_schema_added_property _ _ _ _ _ _ _ _ _ R1 R2 A1 A2 CP NA ND Hcs name sc2 Hp HK) as [cl2 [Rc2 Hin]].
+    rewrite Hreq in Hin. apply (reports_breaking_in cl2 AddedRequiredProperty []); [apply Ho, Hi, Hin|].
+    unfold is_breaking, mk_diff, add_diff. cbn [d_compat d_loc d_code]. rewrite Rc2, Rcl. vm_compute. reflexivity.
+  Qed.
+End BodyClause.
